@@ -418,13 +418,16 @@ func classesRange(c RangeCase) []string {
 	if p.ambiguous {
 		cl = append(cl, "lenient-only-syntax")
 	}
+	if p.listOWS && !p.ambiguous && p.ok {
+		cl = append(cl, "list-whitespace-strict")
+	}
 	if c.Len == 0 {
 		cl = append(cl, "empty-content")
 	}
 	return cl
 }
 
-var rangeRule = "content of 0..64 KiB x Range header drawn from the RFC 7233 grammar (1..4 specs a-b / a- / -n, positions from {0,1,len-2,len-1,len,len+1,2^31,2^50,2^63-1,2^63,2^64,10^30} and uniform, reversed pairs, blanks, other letter case, other units, empty and garbage elements, stray commas, character-level mutations), answered by body.Modifier (content slice with or without spare capacity) or static.Modifier, built by their Go constructors or by parse.FromJSON from the documented JSON configuration, and judged against an independent range resolver; non-trivial = an end >= len, a suffix or open-ended spec, >= 2 specs, or a malformed spec"
+var rangeRule = "content of 0..64 KiB x Range header drawn from the RFC 7233 grammar (1..4 specs a-b / a- / -n, positions from {0,1,len-2,len-1,len,len+1,2^31,2^50,2^63-1,2^63,2^64,10^30} and uniform, reversed pairs, blanks inside members, 0..2 SP/HTAB around every comma for all three spec kinds in every list position, other letter case, other units, empty and garbage elements, stray commas, character-level mutations), answered by body.Modifier (content slice with or without spare capacity) or static.Modifier, built by their Go constructors or by parse.FromJSON from the documented JSON configuration, and judged against an independent range resolver; non-trivial = an end >= len, a suffix or open-ended spec, >= 2 specs, or a malformed spec"
 
 // ---- generator
 
@@ -499,8 +502,45 @@ func genSpec(t *rapid.T, n int) string {
 
 const mutAlphabet = "0123456789-,= \tbytesBYTES+x"
 
+var owsChoices = []string{"", " ", "\t", "  ", " \t", "\t "}
+
+// genListOWS draws a valid range set whose members (all three kinds, in every
+// list position) carry 0..2 SP / HTAB at both ends, i.e. around every comma -
+// the optional white space of the list grammar (RFC 7230 §7). Nothing follows
+// the "=" directly and nothing trails: an HTTP parser trims the field value,
+// and the grammar allows no blank between "=" and the first member.
+func genListOWS(t *rapid.T, n int) string {
+	k := rapid.IntRange(1, 4).Draw(t, "ows_specs")
+	hi := n - 1
+	if hi < 0 {
+		hi = 0
+	}
+	var sb strings.Builder
+	sb.WriteString("bytes=")
+	for i := 0; i < k; i++ {
+		if i > 0 {
+			sb.WriteString(rapid.SampledFrom(owsChoices).Draw(t, "ows_before_comma"))
+			sb.WriteString(",")
+			sb.WriteString(rapid.SampledFrom(owsChoices).Draw(t, "ows_after_comma"))
+		}
+		a := rapid.IntRange(0, hi).Draw(t, "ows_a")
+		switch rapid.IntRange(0, 2).Draw(t, "ows_kind") {
+		case 0:
+			fmt.Fprintf(&sb, "%d-%d", a, rapid.IntRange(a, hi+3).Draw(t, "ows_b"))
+		case 1:
+			fmt.Fprintf(&sb, "%d-", a)
+		default:
+			fmt.Fprintf(&sb, "-%d", rapid.IntRange(1, n+2).Draw(t, "ows_n"))
+		}
+	}
+	return sb.String()
+}
+
 func genRangeHeader(t *rapid.T, n int) string {
-	mode := rapid.IntRange(0, 19).Draw(t, "mode") // 0..14 grammar, 15..18 grammar + mutations, 19 free-form
+	mode := rapid.IntRange(0, 22).Draw(t, "mode") // 0..14 grammar, 15..18 grammar + mutations, 19 free-form, 20..22 list white space
+	if mode >= 20 {
+		return genListOWS(t, n)
+	}
 	if mode == 19 {
 		// free-form garbage
 		return sanitizeHeader(rapid.StringOfN(rapid.RuneFrom([]rune(mutAlphabet+"é ")), 0, 24, -1).Draw(t, "free"))
@@ -526,7 +566,7 @@ func genRangeHeader(t *rapid.T, n int) string {
 		sb.WriteString(genSpec(t, n))
 	}
 	h := sb.String()
-	if mode >= 15 {
+	if mode >= 15 && mode <= 18 {
 		// character-level mutations
 		b := []byte(h)
 		for m := rapid.IntRange(1, 3).Draw(t, "mutations"); m > 0; m-- {
@@ -577,7 +617,7 @@ var propRange = &kit.Prop[RangeCase]{
 	Run: runRange, Classes: classesRange,
 	NonTrivial: func(c RangeCase) bool { return c.Range != "" && nonTrivialRange(c.Range, int64(c.Len)) },
 	Gates: map[string]float64{
-		"nontrivial": 0.5, "who-body": 0.3, "body-slice-with-spare-capacity": 0.08, "built-from-json-config": 0.1, "who-static": 0.25, "expect-multipart": 0.1, "expect-single-range": 0.15,
+		"nontrivial": 0.5, "who-body": 0.3, "body-slice-with-spare-capacity": 0.08, "built-from-json-config": 0.1, "list-whitespace-strict": 0.06, "who-static": 0.25, "expect-multipart": 0.1, "expect-single-range": 0.15,
 		"clamped": 0.08, "shape-suffix": 0.05, "expect-invalid": 0.08, "shape-inside": 0.05, "expect-unsatisfiable": 0.03,
 	},
 	Gen: func(t *rapid.T) RangeCase {
@@ -610,7 +650,7 @@ func TestRange(t *testing.T) {
 
 var propRangeMatrix = &kit.Prop[RangeCase]{
 	ID: "C20", Name: "range-matrix",
-	Rule: "ALL headers 'bytes=' + one spec, and + two specs from a reduced set, over positions {0,1,len-2,len-1,len,len+1,2^31,2^50,2^63-1,2^63,2^64} and forms a-b / a- / -n, plus a fixed list of unit and syntax variants, for every content length in {0,1,2,3,10}, against both modifiers (for lengths 2 and 10 also built from their JSON configuration); non-trivial as in 'range'",
+	Rule: "ALL headers 'bytes=' + one spec, and + two specs from a reduced set, over positions {0,1,len-2,len-1,len,len+1,2^31,2^50,2^63-1,2^63,2^64} and forms a-b / a- / -n, plus a fixed list of unit and syntax variants, plus (length 10) every placement of SP / HTAB around the commas of all ordered pairs and triples of the three spec kinds, for every content length in {0,1,2,3,10}, against both modifiers (for lengths 2 and 10 also built from their JSON configuration); non-trivial as in 'range'",
 	Run:  runRange, Classes: classesRange,
 	NonTrivial: func(c RangeCase) bool { return c.Range != "" && nonTrivialRange(c.Range, int64(c.Len)) },
 }
@@ -660,6 +700,33 @@ func TestRangeMatrix(t *testing.T) {
 			for _, a := range reduced {
 				for _, b := range reduced {
 					headers = append(headers, "bytes="+a+","+b)
+				}
+			}
+			if n == 10 {
+				// every placement of list white space: ordered pairs and triples of the
+				// three spec kinds, each comma with SP / HTAB / two blanks on either side
+				kinds := []string{"0-1", "5-", "-3"}
+				for _, a := range kinds {
+					for _, b := range kinds {
+						for _, l := range []string{"", " ", "\t", "  "} {
+							for _, r := range []string{"", " ", "\t", "  "} {
+								headers = append(headers, "bytes="+a+l+","+r+b)
+							}
+						}
+						for _, c3 := range kinds {
+							for _, l1 := range []string{"", " ", "\t"} {
+								for _, r1 := range []string{"", " ", "\t"} {
+									for _, l2 := range []string{"", " ", "\t"} {
+										for _, r2 := range []string{"", " ", "\t"} {
+											if l1+r1+l2+r2 != "" {
+												headers = append(headers, "bytes="+a+l1+","+r1+b+l2+","+r2+c3)
+											}
+										}
+									}
+								}
+							}
+						}
+					}
 				}
 			}
 			for _, h := range headers {
